@@ -449,6 +449,10 @@ class Program:
                             err_.raised = type(ex_).__name__          # type: ignore[attr-defined]
                             raise err_
                         raise
+                import re as _re3
+                if isinstance(recv_, (_re3.Pattern, _re3.Match)) and fn.attr in ("search", "match", "fullmatch", "sub", "subn", "findall", "split", "group", "groups", "groupdict", "start", "end", "span"):
+                    # a compiled expression of the program (a folded `re.compile(<constant>)`) applied to folded text: the standard library decides
+                    return getattr(recv_, fn.attr)(*[f(a) for a in node.args], **{k.arg: f(k.value) for k in node.keywords if k.arg})
                 if env is not None and env.get("__strict__") and recv_ is not None and isinstance(recv_, (dict, list, tuple, str, int, set, frozenset, Abstract)) \
                         and not isinstance(recv_, Raised) and not hasattr(recv_, fn.attr):
                     err_ = EvalError(f"`{unparse(node)[:60]}` raises AttributeError ({type(recv_).__name__} has no `{fn.attr}`)")
@@ -558,6 +562,15 @@ class Program:
                     raise CannotFold(f"{cname} not foldable: {unparse(node)[:60]}")
             if cname in ("any", "all", "sum") and len(node.args) == 1 and not node.keywords:
                 return {"any": any, "all": all, "sum": sum}[cname](f(node.args[0]))
+            if cname in ("re.compile", "re.search", "re.match", "re.fullmatch", "re.findall", "re.split") and node.args and not (env is not None and cname in env.get("__stubs__", {})):
+                import re as _re4
+                a4_ = [f(x) for x in node.args]
+                k4_ = {k.arg: f(k.value) for k in node.keywords if k.arg}
+                if all(isinstance(x, (str, int)) for x in a4_) and isinstance(a4_[0], str):
+                    try:
+                        return getattr(_re4, cname[3:])(*a4_, **k4_)
+                    except _re4.error:
+                        raise CannotFold(f"regex does not compile: {unparse(node)[:60]}")
             if cname in ("re.sub", "re.subn") and len(node.args) in (3, 4) and all(k.arg in ("count", "flags") for k in node.keywords):
                 import re as _re2
                 a_ = [f(x) for x in node.args]
